@@ -71,6 +71,34 @@ func discharge(ob *Obligation, dir string, idx int, timeoutS int, cross bool) {
 	if ob.Trivial {
 		return
 	}
+	// stage 0: without quantified hypotheses (a sound weakening; most goals do not need them)
+	var qf []*Term
+	nq := 0
+	for i, a := range ob.Asserts {
+		if i < len(ob.Asserts)-1 && hasQuant(a) {
+			nq++
+			continue
+		}
+		qf = append(qf, a)
+	}
+	if nq > 0 && !strings.HasPrefix(ob.Kind, "cover") {
+		file0 := filepath.Join(dir, fmt.Sprintf("o%05d.qf.smt2", idx))
+		if err := os.WriteFile(file0, []byte(ob.ctx.Script(qf, false)), 0o644); err == nil {
+			t := timeoutS
+			if t > 10 {
+				t = 10
+			}
+			r0 := runSolver(solvers[0], file0, t)
+			atomic.AddInt64(&solverSeconds, r0.ms)
+			os.Remove(file0)
+			if r0.res == "unsat" {
+				ob.Result, ob.Solver, ob.Millis = "unsat", r0.solver+"(qf)", r0.ms
+				v, _ := solverWins.LoadOrStore(ob.Solver, new(int64))
+				atomic.AddInt64(v.(*int64), 1)
+				return
+			}
+		}
+	}
 	script := ob.ctx.Script(ob.Asserts, true)
 	// extra model queries
 	if len(ob.queries) > 0 {
@@ -178,4 +206,23 @@ func dischargeAll(obls []*Obligation, dir string, timeoutS int, cross bool, work
 	}
 	close(ch)
 	wg.Wait()
+}
+
+var quantMemo sync.Map
+
+func hasQuant(t *Term) bool {
+	if v, ok := quantMemo.Load(t); ok {
+		return v.(bool)
+	}
+	r := t.Op == OForall || t.Op == OExists
+	if !r {
+		for _, a := range t.Args {
+			if hasQuant(a) {
+				r = true
+				break
+			}
+		}
+	}
+	quantMemo.Store(t, r)
+	return r
 }
